@@ -203,7 +203,7 @@ func (vc *VC) Query(o *Obligation, axioms *AxiomSet) string {
 				body = append(body, "(assert "+t+")")
 			}
 		case evObl:
-			if i < o.idx && !e.Obl.Cover && !e.Obl.Canary && !o.Cover {
+			if i < o.idx && !e.Obl.Cover && !e.Obl.Canary && !o.Cover && !vc.foreignGhost(e.Obl) {
 				t, d := skolemizeHyp(sImp(e.Obl.Guard, e.Obl.Cond))
 				decls = append(decls, d...)
 				body = append(body, "(assert "+t+")")
@@ -910,4 +910,20 @@ func heapFamily(arr string) string {
 		i = i + 1 + k
 	}
 	return ""
+}
+
+// foreignGhost reports whether o is a ghost assertion of the contract (a site clause, a step clause, an early-exit
+// clause) that is NOT among the obligations of the property being checked. Such a clause is proved in another property's
+// run; using it as a hypothesis here would let a change that falsifies it make every later obligation of THIS run
+// vacuously true (the run for a property must stand on what it proves itself, on program semantics - a failed safety
+// condition ends the execution - and on the declared assumptions).
+func (vc *VC) foreignGhost(o *Obligation) bool {
+	if len(vc.Opt.SafetyProps) == 0 {
+		return false
+	}
+	switch o.Kind {
+	case "assert", "step", "early-exit":
+		return !hasProp(o.Props, vc.Opt.SafetyProps[0])
+	}
+	return false
 }
